@@ -246,15 +246,15 @@ Definition ks_prefix_check (s : bytes) : bool :=
   | Some e => forallb (fun p => equiv_pre p [s] e) ctx_prefixes
   | None => false
   end.
-(* Order-sensitive spellings on the pinned tree: --otsv and --onidx assign OFS themselves (so they override an earlier
-   --ofs), the listed --X2t / --X2n closures only select the format (so an earlier --ofs survives; for TSV the run then
-   ends with "for TSV, OFS cannot be altered"); --d2t, --c2n, --t2n, --d2n assign OFS like --otsv/--onidx. *)
-Definition ks_prefix_sensitive : list bytes :=
-  [ B "--t2t"; B "--c2t"; B "--j2t"; B "--l2t"; B "--m2t"; B "--n2t"; B "--p2t"; B "--x2t"; B "--y2t";
-    B "--n2n"; B "--j2n"; B "--l2n"; B "--m2n"; B "--p2n"; B "--x2n"; B "--y2n" ].
+(* Order-sensitive spellings: none since the repair of the --X2t / --X2n / --tsv / --nidx closures (they now assign OFS
+   exactly as --otsv / --onidx do; KNOWN_FINDINGS.txt "fixed:" line flag-spelling:--ofs-before-X2t-X2n).  The list is kept
+   (empty) so that a regression shows up as a failing obligation with the offending spellings computed by
+   [ks_prefix_failing]. *)
+Definition ks_prefix_sensitive : list bytes := [].
 Definition keystroke_savers_prefix_ok_partial : bool :=
   forallb (fun s => mem s ks_prefix_sensitive || ks_prefix_check s) keystroke_spellings.
 (* the exclusion list is exact: each listed spelling is in the table, differs under the prefix --ofs, and only there *)
+Definition ks_prefix_failing : list bytes := filter (fun s => negb (ks_prefix_check s)) keystroke_spellings.
 Definition ks_prefix_sensitive_exact : bool :=
   forallb (fun s => mem s keystroke_spellings
                     && match expansion_of_name s with
@@ -278,7 +278,9 @@ Definition io_pairs_ok : bool :=
 Definition doc_format_names : list bytes :=
   [ B "csv"; B "csvlite"; B "dcf"; B "dkvp"; B "dkvpx"; B "gen"; B "json"; B "markdown"; B "nidx"; B "pprint"; B "recutils";
     B "tsv"; B "xtab"; B "yaml" ].
-Definition format_names : list bytes := doc_format_names ++ keys gen_default_fs.
+(* md and jsonl: names of the long flags --imd/--omd/--md and --ijsonl/--ojsonl/--jsonl (accepted by -i/-o/--io since the repair) *)
+Definition extra_format_names : list bytes := [ B "md"; B "jsonl" ].
+Definition format_names : list bytes := doc_format_names ++ keys gen_default_fs ++ extra_format_names.
 (* names for which all of --iX, --oX, --X must exist (non-vacuity of the check) *)
 Definition core_format_names : list bytes :=
   [ B "csv"; B "csvlite"; B "tsv"; B "json"; B "dkvp"; B "nidx"; B "xtab"; B "pprint"; B "markdown"; B "yaml"; B "dcf"; B "recutils" ].
